@@ -85,14 +85,16 @@ pub fn c14c_tiling<const K: usize, const D: usize, const MAXREC: usize>() {
 
     // length of the header line: kcount names of k letters joined by the delimiter + '\n'
     let header_len = if header_on { kcount * k + (kcount - 1) * delim_len + 1 } else { 0 };
-    // ---- C14C: extracted from composition/src/oligo.rs (vectorise_mmap) ----
+    // ---- C14C: slice extracted from composition/src/oligo.rs (vectorise_mmap) ----
     /*@@C14C@@*/
     // ---- end of extracted block ----
     // row-length model: kcount numbers of NUMBER_SIZE characters joined by the delimiter + '\n'
     let row_len = kcount * NUMBER_SIZE + (kcount - 1) * delim_len + 1;
-    let file_size = file_size_of(seq_count, header_on, header_len, delim_len, kcount, k);
-    let a = row_offset(n, row_len, header_len, delim_len, kcount, k);
-    let b = row_offset(n2, row_len, header_len, delim_len, kcount, k);
+    let me = Me { kcount, ksize: k, delim: Dl(delim_len), header: header_on, norm: true, threads: 1 };
+    let (file_size, a, hdr_pos) = layout(&me, seq_count, header_len, row_len, n);
+    let (_, b, _) = layout(&me, seq_count, header_len, row_len, n2);
+    let (_, first, _) = layout(&me, seq_count, header_len, row_len, 0);
+    let (_, last, _) = layout(&me, seq_count, header_len, row_len, seq_count - 1);
     check!(a >= header_len, "C14: a row is written over the header");
     check!(a + row_len <= file_size, "C14: a row is written (partly) outside the mapped file");
     if n < n2 {
@@ -101,12 +103,9 @@ pub fn c14c_tiling<const K: usize, const D: usize, const MAXREC: usize>() {
     if n + 1 == n2 {
         check!(a + row_len == b, "C14: consecutive rows are not adjacent (bytes left unwritten)");
     }
-    check!(row_offset(0, row_len, header_len, delim_len, kcount, k) == header_len, "C14: first row does not start right after the header");
-    check!(
-        row_offset(seq_count - 1, row_len, header_len, delim_len, kcount, k) + row_len == file_size,
-        "C14: file size is not header length + records x row length"
-    );
-    check!(HEADER_WRITE_POS == 0 && header_len <= file_size, "C14: header is not written at the start of the mapped file");
+    check!(first == header_len, "C14: first row does not start right after the header");
+    check!(last + row_len == file_size, "C14: file size is not header length + records x row length");
+    check!(hdr_pos == 0 && header_len <= file_size, "C14: header is not written at the start of the mapped file");
     cover!(n + 1 == n2 && header_on, "req: consecutive rows, header on");
     cover!(n + 1 < n2 && !header_on, "req: non-adjacent rows, header off");
     cover!(true, "req: end of harness reached");
@@ -127,8 +126,8 @@ pub fn c14c_no_overflow<const K: usize, const D: usize>() {
     let header_len = if header_on { kcount * k + (kcount - 1) * delim_len + 1 } else { 0 };
     /*@@C14C@@*/
     let row_len = kcount * NUMBER_SIZE + (kcount - 1) * delim_len + 1;
-    let file_size = file_size_of(seq_count, header_on, header_len, delim_len, kcount, k);
-    let a = row_offset(n, row_len, header_len, delim_len, kcount, k);
+    let me = Me { kcount, ksize: k, delim: Dl(delim_len), header: header_on, norm: true, threads: 1 };
+    let (file_size, a, _) = layout(&me, seq_count, header_len, row_len, n);
     check!(a >= header_len, "C14: a row is written over the header");
     check!(file_size >= header_len, "C14: file size is not header length + records x row length");
     cover!(seq_count > (1usize << 31), "req: more than 2^31 records");
